@@ -164,15 +164,16 @@ def confirm_c16(rec, families):
     cls = index_classes(comp.assignment)
     lists = tensor_index_lists(comp.assignment)
 
-    def scaled(c, newd):
+    def scaled(dims):
+        """The decoded inputs with the sizes of the given index classes replaced."""
         import copy
 
         d2 = copy.deepcopy(dec)
-        d2["dimvals"][c] = newd
+        for c, newd in dims.items():
+            d2["dimvals"][c] = newd
         for name, t in d2["inputs"].items():
-            t["dimensions"] = [newd if cls[i] == c else old for i, old in zip(lists[name], t["dimensions"])]
-        d2["output_dimensions"] = [newd if cls[i] == c else old
-                                   for i, old in zip(lists[comp.target], d2["output_dimensions"])]
+            t["dimensions"] = [dims.get(cls[i], old) for i, old in zip(lists[name], t["dimensions"])]
+        d2["output_dimensions"] = [dims.get(cls[i], old) for i, old in zip(lists[comp.target], d2["output_dimensions"])]
         return d2
 
     def min_dim(c):
@@ -185,11 +186,15 @@ def confirm_c16(rec, families):
                     need = max(need, max(lv[1]) + 1)
         return need
 
+    # every free class shrunk to just above its stored coordinates (the model may put them near 2^31: a
+    # defective dense loop over such a size would run for hours on the concrete machine), then one class at a
+    # time enlarged
+    small = {c: min(dec["dimvals"][c], max(min_dim(c), 1) + 3) for c in classes}
+    base = replay.concrete_ir_run(comp, ["evaluate"], scaled(small), max_loop_iter=20000)
     for c in classes:
-        d0 = min(dec["dimvals"][c], max(min_dim(c), 1) + 3)
-        base = replay.concrete_ir_run(comp, ["evaluate"], scaled(c, d0), max_loop_iter=20000)
-        d_big = d0 + 1000
-        big = replay.concrete_ir_run(comp, ["evaluate"], scaled(c, d_big), max_loop_iter=20000)
+        d0 = small[c]
+        d_big = d0 + 300
+        big = replay.concrete_ir_run(comp, ["evaluate"], scaled({**small, c: d_big}), max_loop_iter=20000)
         run = {"class": c, "D": d0, "D2": d_big,
                "iterations": [base.get("loop_iterations"), big.get("loop_iterations")],
                "statements": [base.get("statements"), big.get("statements")],
